@@ -12,8 +12,8 @@ from harness.framework import Suite
 from harness.swctext import Expect
 
 PID = "C16"
-TRANSLATE_ALGO = ["AlgoNode", "AlgoAssemble", "AlgoResample"]   # regenerated on every run from transforms/branch_tree.py (BranchTreeAssembler.__call__), node.py (detach), tree.py (Node.children)
-DRIVER_FILES = ["SwcVerif/Model/AlgoRunAssemble.lean", "SwcVerif/Model/AlgoRunResample.lean"]
+TRANSLATE_ALGO = ["AlgoNode", "AlgoAssemble", "AlgoResample", "AlgoResampleTree"]   # regenerated on every run from transforms/branch_tree.py (BranchTreeAssembler.__call__), node.py (detach), tree.py (Node.children)
+DRIVER_FILES = ["SwcVerif/Model/AlgoRunAssemble.lean", "SwcVerif/Model/AlgoRunResample.lean", "SwcVerif/Model/AlgoRunResampleTree.lean"]
 LEAN_MODS = ["SwcVerif.Props.C16", "SwcVerif.Props.C16Length", "SwcVerif.Props.C16Pair", "SwcVerif.Props.C16PairLoc", "SwcVerif.Props.C16Asm", "SwcVerif.Props.C16AsmGen", "SwcVerif.Props.C16Gen"]
 THEOREMS = [
     "C16Asm.machine_eq_sub", "C16Asm.assemble_eq", "C16Asm.assemble_sorted", "C16Asm.assemble_wf", "C16Asm.assemble_length", "C16Asm.branch_is_chain",
@@ -1127,7 +1127,114 @@ class AssembleSuite(Suite):
         return out
 
 
-SUITES = [BranchSuite(), TreeSuite(), PairSuite(), AssembleSuite()]
+class ResamTreeSuite(Suite):
+    """The TREE-level drivers `Resampler.__call__` (as `IsometricResampler`) and `TreeSmoother.__call__` against their GENERATED translations
+    (Gen/AlgoResampleTree.lean, driver op `gresamtree`): the generated driver is run on the ORIGINAL tree's columns; for the resampler the
+    callbacks answer what the library's branch resampler / `pair` / duplicate tests answered (sample counts in call order, pairing, flags),
+    the (id, pid) table must be the real one exactly; for the smoother the generated code runs at exact rationals on the float32 columns and
+    the x, y, z columns must agree within 1e-5."""
+    name = "c16.resamtree"
+    case_timeout = 30
+
+    def cases(self, rng, tier, widen):
+        out = []
+        big = tier == "thorough" or widen
+        k = 0
+        for j in range(60 if big else 16):
+            n = rng.choice([2, 3, 5, 8, 13, 21] + ([40] if big else []))
+            t = None
+            while t is None:
+                pids = gen.parents_sorted(rng, n, gen.pick_shape(rng, k)); k += 1
+                if rng.random() < 0.5:
+                    pids = gen.renumber_root0(rng, pids)
+                t = lattice_tree(rng, pids)
+            if j % 2 == 0:
+                out.append({"class": f"resample-n{min(n, 40)}", "kind": "resample", "tree": t, "d": rng.choice([0.25, 0.5, 1.0, 1.5, 2.5, 7.0]),
+                            "gap": rng.random() < 0.5})
+            else:
+                out.append({"class": f"smooth-n{min(n, 40)}", "kind": "smooth", "tree": t, "k": rng.choice([1, 2, 3, 4, 5, 7])})
+        return out
+
+    def run(self, case):
+        x = gen.make_tree(case_tree(case))
+        base = {"ids": [int(v) for v in x.id()], "pids": [int(v) for v in x.pid()]}
+        if case["kind"] == "smooth":
+            from swcgeom.transforms import TreeSmoother
+            cols = {c: [float(v) for v in x.get_ndata(c)] for c in "xyz"}
+            y = TreeSmoother(case["k"])(x)
+            return {**base, "in": cols, "out": {c: [float(v) for v in y.get_ndata(c)] for c in "xyz"},
+                    "same_topology": [int(v) for v in y.id()] == base["ids"] and [int(v) for v in y.pid()] == base["pids"],
+                    "r_same": bool(np.array_equal(y.r(), x.r()))}
+        from swcgeom.transforms import IsometricResampler
+        rsm = IsometricResampler(case["d"], adjust_last_gap=case["gap"])
+        made, pb, pc = [], [], []
+        inner, pair0, eps = rsm.resampler, rsm.assembler.pair, rsm.assembler.EPS
+
+        def resampler(br):
+            y = inner(br); made.append(y); return y
+
+        def pair(branches, endpoints):
+            pairs = list(pair0(branches, endpoints))
+            for br, c in pairs:
+                pb.append([id(m) for m in made].index(id(br))); pc.append(int(c.idx))
+            nd = endpoints[0].parent() if endpoints else None
+            for br, c in pairs:
+                g = pb[len(flags)]
+                flags.append((g, int(np.linalg.norm(br[0].xyz() - nd.xyz()) < eps), int(np.linalg.norm(br[-1].xyz() - c.xyz()) < eps)))
+            return pairs
+
+        flags = []
+        rsm.resampler, rsm.assembler.pair = resampler, pair
+        y = rsm(x)
+        fs, fe = [0] * len(made), [0] * len(made)
+        for g, a, b in flags:
+            fs[g], fe[g] = a, b
+        return {**base, "blen": [len(br) for br in made], "pb": pb, "pc": pc, "s": fs, "e": fe, "npair": len({c for c in pc}),
+                "id": [int(v) for v in y.id()], "pid": [int(v) for v in y.pid()]}
+
+    def lines(self, case, res):
+        if "exc" in res:
+            return []
+        head = f"gresamtree op={case['kind']} ids={gen.ints(res['ids'])} pids={gen.ints(res['pids'])}"
+        if case["kind"] == "smooth":
+            want = [res["out"][c] for c in "xyz"]
+
+            def close(out):
+                m = parse_cols(out)
+                return len(m) == 3 and all(len(a) == len(b) and all(abs(u - v) <= 1e-5 * max(1.0, abs(v)) for u, v in zip(a, b)) for a, b in zip(m, want))
+            return [(head + " " + " ".join(f"{c}={rats(res['in'][c])}" for c in "xyz") + f" k={case['k']}", Expect(close, f"impl: {want}"))]
+        return [(head + " " + " ".join(f"{k}={gen.ints(res[k])}" for k in ("blen", "pb", "pc", "s", "e")),
+                 Expect(lambda out: out.split(" / ")[:2] == [gen.ints(res["id"]), gen.ints(res["pid"])] and out.split(" / ")[3:] == [str(len(res["blen"]))],
+                        f"impl: {gen.ints(res['id'])} / {gen.ints(res['pid'])} / * / {len(res['blen'])}"))]
+
+    @guarded
+    def oracle(self, case, res):
+        if "exc" in res:
+            return [("resamtree-raises", f"{res['exc']}: {res.get('msg')} on pids={short(case_tree(case)['pids'])}")]
+        out = []
+        if case["kind"] == "smooth":
+            if not res["same_topology"] or not res["r_same"] or any(len(res["out"][c]) != len(res["in"][c]) for c in "xyz"):
+                out.append(("smooth-tree-topology", "TreeSmoother changed ids / pids / radii / the node count"))
+            pids = res["pids"]
+            deg = [0] * len(pids)
+            for p in pids:
+                if p >= 0:
+                    deg[p] += 1
+            for i, p in enumerate(pids):
+                if p < 0 or deg[i] != 1:          # root, furcations, tips
+                    if any(abs(res["out"][c][i] - res["in"][c][i]) > 1e-6 for c in "xyz"):
+                        out.append(("smooth-tree-endpoint", f"node {i} (root / furcation / tip) moved")); break
+            return out
+        pid = res["pid"]
+        if res["id"] != list(range(len(pid))) or pid[0] != -1 or any(not (0 <= p < k) for k, p in enumerate(pid) if k > 0):
+            out.append(("resample-tree-not-wellformed", f"resampled table ids {res['id'][:8]} pids {pid[:12]}"))
+        return out
+
+    def nontrivial(self, case, res):
+        return "exc" not in res and len(res["ids"]) >= 3
+
+
+SUITES = [BranchSuite(), TreeSuite(), PairSuite(), AssembleSuite(), ResamTreeSuite()]
 TECHNIQUE = ("Lean 4 theorems over ℚ about the models of np.interp / linspace (end points, equal steps no longer than the spacing, every sample a convex combination "
              "of two consecutive originals, radii by the same interpolation; over ℝ with the Euclidean norm: the polyline through the samples of both resamplers is no longer than the original, for any sorted abscissae), of the smoother (end points, count) and of the re-assembly rule (no interior sample "
              "lost; the greedy branch/child pairing returns a perfect matching at distance 0, also when sister branches end at one point; the table the assembler builds (explicit stack, id allocation) equals a structural recursion over the branch tree and is, for every branch tree, sample counts and pairing order, a parent-before-child tree table in which each branch is a chain of its samples between the copies of its key nodes) "
